@@ -79,6 +79,43 @@ def pose_float(text, mat, snap=None):
     return structures.map_atoms(text, f)
 
 
+def contact_probes(src, dists):
+    """mini structures: one real donor residue (taken from `src`) and a glycine whose C=O lies on the line group centre -> polar atom,
+    re-oriented so that this line is the x axis: interactions at the rim of their range, with the group CENTRES as far apart as the
+    interaction allows, all of it along one coordinate axis"""
+    donors = [("HIS", "NE2", ("CG", "ND1", "CD2", "CE1", "NE2")), ("HIS", "ND1", ("CG", "ND1", "CD2", "CE1", "NE2")),
+              ("ARG", "NH1", ("CZ",)), ("LYS", "NZ", ("CE",)), ("TYR", "OH", ("CZ",)), ("TRP", "NE1", ("CD1", "CE2"))]
+    al = structures.atom_lines(src)
+    out = []
+    for resname, polar, centre in donors:
+        res = next(((l[21], l[22:27]) for l in al if l[17:20] == resname and l[12:16].strip() == polar and l[16] in " A"), None)
+        if res is None:
+            continue
+        lines = [l for l in al if (l[21], l[22:27]) == res and l[16] in " A"]
+        at = {l[12:16].strip(): [float(v) for v in structures.get_xyz(l)] for l in lines}
+        if not all(k in at for k in centre + (polar,)):
+            continue
+        c = [sum(at[k][i] for k in centre) / len(centre) for i in range(3)]
+        u = [at[polar][i] - c[i] for i in range(3)]
+        n = math.sqrt(sum(a * a for a in u))
+        u = [a / n for a in u]
+        w = [1.0, 0.0, 0.0] if abs(u[0]) < 0.9 else [0.0, 1.0, 0.0]
+        v = [u[1] * w[2] - u[2] * w[1], u[2] * w[0] - u[0] * w[2], u[0] * w[1] - u[1] * w[0]]
+        n = math.sqrt(sum(a * a for a in v))
+        v = [a / n for a in v]
+        for d in dists:
+            O = [at[polar][i] + d * u[i] for i in range(3)]
+            C = [O[i] + 1.23 * u[i] for i in range(3)]
+            CA = [C[i] + 1.52 * (0.5 * u[i] + 0.866 * v[i]) for i in range(3)]
+            N = [CA[i] + 1.46 * (0.5 * u[i] - 0.866 * v[i]) for i in range(3)]
+            gly = []
+            for k, (nm, p) in enumerate((("N", N), ("CA", CA), ("C", C), ("O", O))):
+                gly.append("ATOM  %5d  %-3s GLY B   5    %8.3f%8.3f%8.3f  1.00 10.00           %s" % (9000 + k, nm, p[0], p[1], p[2], nm[0]))
+            text = "\n".join(lines + ["TER"] + gly + ["TER", "END"]) + "\n"
+            out.append((f"{resname} {res[1].strip()}{res[0]} {polar}...O=C of a glycine at {d} A, contact line along x", pose_float(text, align(u, [1.0, 0.0, 0.0]))))
+    return out
+
+
 def heavy_record(mol):
     out = {}
     for cname in mol.conformation_names:
@@ -265,8 +302,25 @@ def run(chk: common.Check):
             out.append((None, (9000.0, 9000.0, 9000.0)))
             out.append((rng.choice(ris), (-700.0, 8000.0, -650.5)))
         return out
+    def origin_poses(text, n):
+        """translations that put one atom exactly on the origin (an absolute coordinate value must not matter)"""
+        al = structures.atom_lines(text)
+        out = []
+        for l in rng.sample(al, n):
+            x, y, z = structures.get_xyz(l)
+            out.append((None, (-float(x), -float(y), -float(z))))
+        return out
     small = protein_only(structures.read("3SGB-subset.pdb"))
-    study("3SGB-subset protein, hydrogens built", small, [], PKA_TOL_BUILT, poses(23 if chk.thorough else 8, 3), "built-hydrogens")
+    study("3SGB-subset protein, hydrogens built", small, [], PKA_TOL_BUILT, poses(23 if chk.thorough else 8, 3) + origin_poses(small, 4 if chk.thorough else 2), "built-hydrogens")
+    # every coordinate axis of the deposited frame is mapped onto x, y and z once (rotations #8: x<-y.., #12: x<-z..): pair screens along one axis
+    hpx_p = protein_only(structures.read("1HPX.pdb"))
+    z_to_x = next(i for i, R in enumerate(rots) if R[0][2] != 0)     # new x = +-old z
+    y_to_x = next(i for i, R in enumerate(rots) if R[0][1] != 0)     # new x = +-old y
+    study("1HPX protein, hydrogens built", hpx_p, [], PKA_TOL_BUILT, [(z_to_x, (0, 0, 0)), (y_to_x, (0, 0, 0))] + ([(ri, (0, 0, 0)) for ri in (3, 17, 21)] if chk.thorough else []), "built-hydrogens")
+    # contacts at the rim of their range laid along one coordinate axis (a pair screen on one coordinate of the group centres)
+    probe_d = (2.6, 2.8, 3.0, 3.2, 3.6, 4.0) if chk.thorough else (2.8, 3.0, 3.8)
+    for pname, ptext in contact_probes(hpx_p, probe_d):
+        study(pname, ptext, [], PKA_TOL_BUILT, [(z_to_x, (0, 0, 0)), (y_to_x, (0, 0, 0))] + ([(ri, (3.0, -4.0, 5.0)) for ri in (5, 14)] if chk.thorough else []), "built-hydrogens")
     study("3SGB-subset protein, hydrogens supplied", with_hydrogens(small), ["--keep-protons"], TOL_EXACT, poses(23 if chk.thorough else 8, 3), "keep-protons")
     study("1HPX with ligand (heavy-atom part only)", structures.read("1HPX.pdb"), [], None, poses(4 if chk.thorough else 2, 1), "heavy")
     study("sample-issue-140 (heavy-atom part only)", structures.read("sample-issue-140.pdb"), [], None, [(ri, (12.345, -7.5, 3.2)) for ri in (range(24) if chk.thorough else (3, 7, 11, 15, 22))], "heavy")
